@@ -1,6 +1,7 @@
-(* C02 driver: prints, per operation, the list of messages completely handed to the writer so far
-   (specification level).  The ring mechanics of mpt_queue_push / mpt_queue_recv are not modelled:
-   the M line repeats the S line and the comparison is made against the specification only. *)
+(* C02 driver: <id> <variant> <wcap> <woff> <rcap> <roff> <op>...
+   M line: ring-level mechanism model of the two framed queues and of the harness transport
+   (coq/Cobs/QueueCodec.v, StreamRun.v): per operation  <msgs>|<status>#<writer state>#<reader state>
+   S line: specification: the list of messages completely handed to the writer so far *)
 let rec parse_ops toks = match toks with
   | [] -> []
   | "send" :: h :: r -> SSend (bytes_of_hex h) :: parse_ops r
@@ -9,15 +10,39 @@ let rec parse_ops toks = match toks with
   | "wire" :: n :: r -> SWire (nat_of_int (int_of_string n)) :: parse_ops r
   | "recv" :: r -> SRecv :: parse_ops r
   | "drain" :: r -> SDrain :: parse_ops r
+  | "dump" :: r -> parse_ops r
   | t :: _ -> failwith ("bad op " ^ t)
-let show l = "L:" ^ (if l = [] then "" else String.concat "," (List.map (fun m -> if m = [] then "E" else hex_of_bytes m) l))
+let hexm m = if m = [] then "E" else hex_of_bytes m
+let show_spec l = "L:" ^ (if l = [] then "" else String.concat "," (List.map hexm l))
+let rec int_of_z z = match z with Z0 -> 0 | Zpos p -> int_of_pos p | Zneg p -> - (int_of_pos p)
+let show_w (e : equeue) =
+  let q = e.eq_q and st = e.eq_st in
+  Printf.sprintf "w:%d,%d,%d,%d,%d,%d|%s" (int_of_nat q.qoff) (int_of_nat q.qlen) (int_of_nat q.qmax)
+    (int_of_nat st.edone) (int_of_nat st.escr) (if int_of_nat st.ectx <> 0 then 1 else 0) (hex_of_bytes (contents q))
+let show_r (d : dqueue) =
+  let q = d.dq_q and st = d.dq_st in
+  Printf.sprintf "r:%d,%d,%d,%d,%d,%d,%d,%d,%d|%s" (int_of_nat q.qoff) (int_of_nat q.qlen) (int_of_nat q.qmax)
+    (int_of_nat st.dcurr) (int_of_nat st.dpos) (int_of_nat st.dlen)
+    (match st.dmsg with Some k -> int_of_nat k | None -> -1) (int_of_nat st.dcode) (int_of_nat st.dpos8)
+    (let c = contents q in
+     let rec take n l = if n <= 0 then [] else match l with [] -> [] | x :: r -> x :: take (n-1) r in
+     let rec drop n l = if n <= 0 then l else match l with [] -> [] | _ :: r -> drop (n-1) r in
+     hex_of_bytes (take (int_of_nat st.dlen) (drop (int_of_nat st.dpos) c)) ^ "|" ^ hex_of_bytes (drop (int_of_nat st.dcurr) c))
+let show_m o = match o with
+  | None -> "F"
+  | Some s ->
+    let msgs = if s.so_got = [] then "-" else String.concat "," (List.map hexm s.so_got) in
+    let st = match s.so_stat with PSOk -> "ok" | PSFail c -> "fail" ^ string_of_int (int_of_z c) in
+    msgs ^ "|" ^ st ^ "#" ^ show_w s.so_w ^ "#" ^ show_r s.so_r
+let variant i = match i with 0 -> v_cobs | 1 -> v_cobs_r | 2 -> v_zpe | _ -> v_zpe_r
 let () =
   let ic = open_in Sys.argv.(1) in
   List.iter (fun line ->
     match split_ws line with
-    | id :: _ :: _ :: _ :: _ :: _ :: ops ->
+    | id :: v :: wc :: wo :: rc :: ro :: ops ->
       let ops = parse_ops ops in
-      let out = String.concat " " (List.map show (sspec_run { sent = []; cur = []; open_ = false } ops)) in
-      Printf.printf "M %s %s\n" id out;
-      Printf.printf "S %s %s\n" id out
+      let n s = nat_of_int (int_of_string s) in
+      let w = world_init (n wc) (n wo) (n rc) (n ro) in
+      Printf.printf "M %s %s\n" id (String.concat " " (List.map show_m (wrun (variant (int_of_string v)) w ops)));
+      Printf.printf "S %s %s\n" id (String.concat " " (List.map show_spec (sspec_run { sent = []; cur = []; open_ = false } ops)))
     | _ -> ()) (read_lines ic)
